@@ -27,7 +27,16 @@ Cat5 == Mk(<< <<"elem","a",1,"">>, <<"text","",2,"1">>, <<"elem","b",2,"">>, <<"
 \* comment and text directly under the root next to the document element
 Cat6 == Mk(<< <<"comment","",1,"c">>, <<"elem","a",1,"">>, <<"elem","b",3,"">>, <<"comment","",1,"d">> >>)
 
-Catalogue == <<Cat1, Cat2, Cat3, Cat4, Cat5, Cat6>>
+\* a deep branch (7 levels) with following siblings at several levels:
+\* a( b( c( a( b( c( a, b ), b ), c ), a ), b ), c )
+Cat7 == Mk(<< <<"elem","a",1,"">>, <<"elem","b",2,"">>, <<"elem","c",3,"">>, <<"elem","a",4,"">>, <<"elem","b",5,"">>,
+              <<"elem","c",6,"">>, <<"elem","a",7,"">>, <<"elem","b",7,"">>, <<"elem","b",6,"">>, <<"elem","c",5,"">>,
+              <<"elem","a",4,"">>, <<"elem","b",3,"">>, <<"elem","c",2,"">> >>)
+\* a chain of 6 with a text leaf and an attribute at the bottom, then siblings on the way up
+Cat8 == Mk(<< <<"elem","a",1,"">>, <<"elem","a",2,"">>, <<"elem","b",3,"">>, <<"elem","b",4,"">>, <<"elem","a",5,"">>,
+              <<"attr","a",6,"1">>, <<"text","",6,"1">>, <<"elem","b",5,"">>, <<"text","",4,"2">>, <<"elem","a",3,"">>,
+              <<"elem","b",2,"">> >>)
+Catalogue == <<Cat1, Cat2, Cat3, Cat4, Cat5, Cat6, Cat7, Cat8>>
 
 (***************************************************************************)
 (* Value documents: node values range over numeric, non-numeric, empty,    *)
